@@ -4,6 +4,7 @@ peptide map."""
 from __future__ import annotations
 
 import ast
+import itertools
 
 from ..cfg import CFG
 from ..core import callee_is, AnalysisError, const_value, walk_own
@@ -123,6 +124,29 @@ def _group(ctx, f):
     match_loops = {id(x): x for e in ren_pops
                    for x in [cfg.enclosing(e.stmt, (ast.For,))]
                    if x is not None and x is not lp}
+    if not match_loops and ren_pops and all(
+            cfg.enclosing(e.stmt, (ast.For,)) is lp for e in ren_pops):
+        # the rename is there but not in a loop over the containing groups:
+        # readable when the renamed group is *picked* out of the candidates
+        picked = []
+        for e in ren_pops:
+            k = e.args[0] if e.args else ("unknown", "")
+            leaves_ = var_leaves(du, T, k) if k[0] in ("var", "phi") else [k]
+            for lf in leaves_:
+                c = lf[1] if lf[0] == "call" else None
+                if c in ("builtins.max", "builtins.min", "builtins.next") \
+                        or (lf[0] == "sub" and lf[2][0] == "const") or (
+                            lf[0] == "mcall" and lf[2] == "pop"):
+                    picked.append(lf)
+        if picked:
+            ctx.check(False, "C16d-every-containing-group-renamed", f,
+                      "every group that contains the protein takes it in",
+                      f"only one containing group ({show(picked[0], 80)}) "
+                      "is renamed, outside any loop over the candidates: "
+                      "the other groups that contain the protein do not "
+                      "list it, and its peptides keep pointing at them "
+                      "under their old names", node=ren_pops[0].node)
+            return
     ctx.require(len(match_loops) == 1, f"{f.qual}: per-match loop (the "
                 "loop that renames a containing group) not found")
     ml = list(match_loops.values())[0]
@@ -160,6 +184,12 @@ def _group(ctx, f):
             and conds[0][1] == "in" and conds[0][2] == el and (
                 is_gr(conds[0][3]) or (conds[0][3][0] == "mcall" and is_gr(
                     conds[0][3][1]) and conds[0][3][2] == "keys"))
+    if CAND[0] != "comp" and not (
+            CAND[0] in ("call", "mcall") and "intersection" in str(
+                CAND[1] if CAND[0] == "call" else CAND[2])):
+        raise AnalysisError(
+            f"{f.qual}: the candidate groups are built in a form the rule "
+            f"does not read ({show(CAND, 100)}); rule C16d needs re-reading")
     ctx.check(ok, "C16d-candidates-contain-all-peptides", f,
               "candidate groups are those containing every peptide of the "
               "protein (intersection over its peptides)", why, node=ml)
@@ -200,10 +230,43 @@ def _group(ctx, f):
                     return {"P"} | ({"G"} if m else set()) | (
                         {"Q"} if q else set())
                 raise KeyError(t)
-            made = [e for e in creates if all(
-                bool(ev_term(t, atoms)) == o for t, o in lconds(e.stmt))]
-            ren = all(bool(ev_term(t, atoms)) == o
-                      for t, o in lconds(ml)) and bool(pops)
+            # which statements of one round of the protein loop run in
+            # this world: every test is decided on its term (guard
+            # clauses with continue, nesting and if/else alike)
+            undecided = {}
+
+            def value(test, atoms=atoms):
+                tt = simp(T.of(test))
+                try:
+                    return bool(ev_term(tt, atoms))
+                except (EvUnknown, KeyError) as e_:
+                    undecided.setdefault(id(test), str(e_))
+                    return None
+            start = cfg.node_of(lp.body[0]).id
+            stop = frozenset({cfg.node_of(lp).id})
+            cfg.visited_under(start, value, stop=stop)
+            keys = sorted(undecided)
+            if len(keys) > 6:
+                raise EvUnknown(undecided[keys[0]])
+            outcomes = set()
+            for combo in itertools.product((True, False), repeat=len(keys)):
+                forced = dict(zip(keys, combo))
+
+                def decide(test, forced=forced):
+                    if id(test) in forced:
+                        return forced[id(test)]
+                    return value(test)
+                seen = cfg.visited_under(start, decide, stop=stop)
+                outcomes.add((
+                    tuple(i_ for i_, e in enumerate(creates)
+                          if cfg.node_of(e.stmt).id in seen),
+                    cfg.node_of(ml).id in seen and m and bool(pops)))
+            if len(outcomes) != 1:
+                # whether the protein is placed depends on a test the
+                # table cannot evaluate
+                raise EvUnknown(undecided[keys[0]])
+            made_i, ren = next(iter(outcomes))
+            made = [creates[i_] for i_ in made_i]
             want_new = (not g) or (not m)
             if (len(made) == 1) != want_new or ren != (not want_new):
                 bad.append({"groups exist": g, "candidates": m,
